@@ -59,6 +59,25 @@ SCENARIOS = {
         query GetNode { node { ...OnNode } }
         fragment OnNode on Node { id ... on User { profile @mixin(from: "pyvc_mixins", import: "InlinedMixin") { bio } } }
     """, {"get_node": {"GetNodeNodeUserProfile": ["InlinedMixin"]}}),
+    "fragment-spreading-a-fragment-that-has-inline-fragments-is-still-a-class": ("""
+        fragment UserDetails on User { name ... on Node { id } }
+        fragment UserBase on User { friend { id } ...UserDetails }
+        query GetMe { me { ...UserBase } }
+    """, {"get_me": {"GetMeMe": ["UserBase"]}, "fragments": {"UserBase": ["BaseModel"]}}),
+    "nested-field-class-based-on-a-fragment-that-sorts-later": ("""
+        fragment AuthorInfo on User { friend { ...PersonInfo } profile { ...ZProfile } }
+        fragment PersonInfo on User { name }
+        fragment ZProfile on Profile { bio }
+        query GetMe { me { ...AuthorInfo } }
+    """, {"get_me": {"GetMeMe": ["AuthorInfo"]}, "fragments": {"AuthorInfoFriend": ["PersonInfo"], "AuthorInfoProfile": ["ZProfile"]}}),
+    "mixin-on-interface-field-with-inline-fragments": ("""
+        query GetNode { node @mixin(from: "pyvc_mixins", import: "OpFieldMixin") { id ... on User { name } ... on Bot { model } } }
+    """, {"get_node": {"GetNodeNodeNode": ["OpFieldMixin"], "GetNodeNodeUser": ["OpFieldMixin"], "GetNodeNodeBot": ["OpFieldMixin"]}}),
+    "mixin-on-union-field-with-fragments-on-members": ("""
+        fragment UB on User { name }
+        fragment BB on Bot { model }
+        query GetActor { actor @mixin(from: "pyvc_mixins", import: "OpFieldMixin") { __typename ... on User { ...UB } ... on Bot { ...BB } } }
+    """, {"get_actor": {"GetActorActorUser": ["OpFieldMixin", "UB"], "GetActorActorBot": ["OpFieldMixin", "BB"]}}),
 }
 
 
@@ -100,6 +119,9 @@ def check_scenario(name):
                 rep["outcome"][f"{modname}.{cls}"] = have[:5]
                 if not all(b in have for b in bases):
                     rep["failed"].append(f"bases-of-{cls}")
+                foreign = [b for b in have if b in ("UB", "BB") and b not in bases]
+                if foreign:
+                    rep["failed"].append(f"foreign-bases-of-{cls}")
     except Exception as e:   # noqa
         rep["outcome"] = {"raise": type(e).__name__, "message": str(e)[:300]}
         rep["failed"].append("package-loads")
